@@ -607,6 +607,16 @@ fn run_info<'a>(case: &'a Case, ctx: &mut Ctx<'_>, mk: &dyn Fn(&'a [u8]) -> FR<'
                     if r1.is_err() {
                         ctx.probe("reuse_step_failed");
                     }
+                    // stepped past the last entry: the reused entry buffer must not keep showing
+                    // it (a cursor that never read anything shows none)
+                    let past_end = matches!(r1, Ok(false)) && !use_dfs || (use_dfs && matches!(r1, Ok(false)));
+                    if past_end && used.current().is_some() {
+                        ctx.violate(
+                            "c20_cursor",
+                            format!("after stepping past the end (offset {}), current() still shows the entry at {}", at.0, used.current().map(|e| e.offset().0).unwrap_or(0)),
+                        );
+                        return;
+                    }
                     if end || r1.is_err() {
                         break;
                     }
